@@ -120,13 +120,15 @@ def gen_batch(r, bi, services=False, can=False, n_random=(6, 9), out_of_order=Tr
             k += 1
         # dedicated small CAN messages with names of 1..12 characters
         for nm, w in (("M", 5), ("Msg%dAbcdefgh" % bi, 12), ("Cn%d" % bi, 33)):
-            if k >= 9:
+            if k >= 10:
                 break
             add(nm, [("v", 0, ("u", w)), ("w", 1, ("i", min(64 - w, 11)))])
             bus = buses[k % len(buses)]
             idv = r.choice([x for x in range(0, 2048) if x not in ids])
-            if nm.startswith("Cn") and can_bindings and can_bindings[0][2] != bus:
-                idv = can_bindings[0][1]  # the SAME frame id as the first binding, on another bus
+            if nm.startswith("Cn") and can_bindings:
+                # the SAME frame id as the first binding, on another bus
+                bus = next(b_ for b_ in buses if b_ != can_bindings[0][2])
+                idv = can_bindings[0][1]
             ids.append(idv)
             decls.append({"kind": "impl", "protocol": "can", "type": nm, "name": None, "items": [("field", "id", idv), ("field", "bus", ("s", bus))]})
             can_bindings.append((nm, idv, bus))
